@@ -144,7 +144,23 @@ class World:
         return out
 
     def subclasses(self, cname):
-        return [c for c in self.bases if cname in self.mro(c)]
+        """concrete classes an instance of cname can have (abstract classes cannot be instantiated)"""
+        return [c for c in self.bases if cname in self.mro(c) and not self.is_abstract(c)]
+
+    def is_abstract(self, c):
+        if c not in self.classes:
+            return False
+        pending = set()
+        for k in reversed(self.mro(c)):
+            ci = self.classes.get(k)
+            if not ci:
+                continue
+            for name, fn in ci.methods.items():
+                if any('abstractmethod' in ast.unparse(d) for d in fn.decorator_list):
+                    pending.add(name)
+                else:
+                    pending.discard(name)
+        return bool(pending)
 
     def is_sub(self, c, base):
         return base in self.mro(c)
